@@ -259,7 +259,7 @@ def run_check(pid, tier, seed, jobs=None, budget=None):
         pool = None
     else:
         ctx = multiprocessing.get_context('fork')
-        pool = ctx.Pool(min(jobs, len(args)))
+        pool = ctx.Pool(min(jobs, len(args)), maxtasksperchild=1)   # every task starts from a fresh process state
         it = pool.imap_unordered(_work, args, chunksize=1)
     try:
         for idx, r in it:
